@@ -117,7 +117,9 @@ class Sys:
             return ("exc", type(e).__name__)
 
     def canon(self, w):
-        return (w.created, _canon.canon_graph(w.U + w.L, uid="drop"))
+        # generic walk of the real objects plus the public observation (so that a private representation
+        # the walk cannot see into never merges states that look different from outside)
+        return (w.created, _canon.canon_graph(w.U + w.L, uid="drop"), repr(observe(w)))
 
     def check(self, pre, op, post, obs):
         out = []
